@@ -31,7 +31,8 @@ ASSUMPTIONS = [
     'Gaussian priors are kept within +/-10 % of physical nominal values (negative temperatures etc. are not among the invalid-atmosphere classes of the statement)',
     'chi^2 == 0 (model equal to data) is outside the domain (the code maps it to NaN on purpose)',
 ]
-REQUIRED = {'native-count-equals-bins': 0.05, 'observation:2-d-arrays': 0.1, 'extreme-error-bars': 0.1, 'retargeted:after-use': 0.1, 'retargeted:before-use': 0.1, 'observation-parameter-fitted': 0.15, 'sampler:nestle': 0.1, 'sampler:multinest': 0.1, 'sampler:polychord': 0.06, 'has-invalid-point': 0.1}
+RULE = RULE + ' ' + 'Also: observation bins as narrow as the native spacing (the clipped native grid then often has exactly as many points as there are bins), and observations holding spectrum and error bars as 2-D arrays; cases stratified by sampler.'
+REQUIRED = {'default-log-prior-after-refused-mode': 0.03, 'native-count-equals-bins': 0.05, 'observation:2-d-arrays': 0.1, 'extreme-error-bars': 0.1, 'retargeted:after-use': 0.1, 'retargeted:before-use': 0.1, 'observation-parameter-fitted': 0.15, 'sampler:nestle': 0.1, 'sampler:multinest': 0.1, 'sampler:polychord': 0.06, 'has-invalid-point': 0.1}
 
 POOL = ['planet_radius', 'T', 'mol0', 'mol1', 'fill', 'clouds_pressure']
 
@@ -71,7 +72,10 @@ def _case(draw, sampler=None):
     w['extras'] = ['SimpleClouds'] if family == 'transmission' else []      # a cloud deck blanks the emission spectrum
     w['fill'] = ['H2', 'He']
     return {'world': w, 'sampler': sampler, 'family': family, 'fitted': list(fitted), 'priors': pri, 'obs': obs,
-            'points': pts, 'ngauss': draw(S.ints(1, 3)), 'retarget': draw(st.sampled_from(['after-use', 'before-use', False, 'after-use', 'before-use', False]))}
+            'points': pts, 'ngauss': draw(S.ints(1, 3)), 'retarget': draw(st.sampled_from(['after-use', 'before-use', False, 'after-use', 'before-use', False])),
+            # log-uniform priors given as mode + bounds (the default prior) instead of an explicit prior object, with a refused
+            # set_mode call (a mode that does not exist; the caller catches the error) afterwards
+            'default_log_priors': draw(S.pick([False, True, False, True]))}
 
 
 def strategy(tier, part=None):
@@ -286,7 +290,16 @@ def check(case):
                 kind, kw = make_prior_spec(r, case['priors'][r], nom)
                 specs[name] = (kind, kw)
                 opt.enable_fit(name)
-                opt.set_prior(name, getattr(P, kind)(**kw))
+                if case.get('default_log_priors') and kind == 'LogUniform' and 'lin_bounds' in kw:
+                    out.cls('default-log-prior-after-refused-mode')
+                    opt.set_mode(name, 'log')
+                    opt.set_boundary(name, list(kw['lin_bounds']))
+                    try:
+                        opt.set_mode(name, 'ln')
+                    except Exception:
+                        pass
+                else:
+                    opt.set_prior(name, getattr(P, kind)(**kw))
             if not roles:
                 out.cls('nothing-fitted')
                 return out
